@@ -237,10 +237,10 @@ fn test_hist(c: &HCase) -> TestResult {
                 if !d.make_room(&truth)? {
                     c02::unstick(&mut d, &order, &truth)?;
                 }
-                d.parse(((*n).max(1) as usize).saturating_mul(mult), dest.map(usize::from), &truth)?;
+                d.parse(((*n).max(1) as usize).saturating_mul(mult), dest.map(|d| d as usize), &truth)?;
             },
             HAct::Base(Act::Parse0 { dest }) => {
-                d.parse(0, dest.map(usize::from), &truth)?;
+                d.parse(0, dest.map(|d| d as usize), &truth)?;
             },
             HAct::Base(Act::ConsumeStream(k)) => d.consume_stream(*k as usize, &truth)?,
             HAct::Base(Act::Compress) => d.compress(&truth)?,
